@@ -441,6 +441,15 @@ def matrix_definitions() -> list[dict]:
                      "versions": [1, OPEN]}),
           _complete({"name": "TimeoutMs", "t": "int32", "tk": "prim", "tagged": [1, OPEN], "tag": 1, "hasdefault": True,
                      "default": aint(30000), "spelling": "30000"}),
+          # near misses of the special names: plain fields
+          _complete({"name": "ErrorCodeCount", "t": "int8", "tk": "prim"}),
+          _complete({"name": "VendorErrorCode", "t": "int16", "tk": "prim"}),
+          _complete({"name": "ErrorCodes", "t": "int16", "tk": "parr"}),
+          _complete({"name": "PartitionErrorCodeTotal", "t": "int32", "tk": "prim"}),
+          _complete({"name": "ThrottleTimeMsTotal", "t": "int32", "tk": "prim"}),
+          _complete({"name": "LogAppendTimeMsSum", "t": "int64", "tk": "prim"}),
+          _complete({"name": "Emoji", "t": "string", "tk": "prim", "hasdefault": True,
+                     "default": {"blob": list("a\U0001F600\u00e9\"q'\\z".encode())}, "spelling": "a\U0001F600\u00e9\"q'\\z"}),
           _complete({"name": "BrokerId", "t": "int32", "tk": "prim", "etype": "brokerId", "hasdefault": True,
                      "default": aint(-1), "spelling": "-1"}),
           _complete({"name": "Topics", "t": "string", "tk": "parr", "etype": "topicName"})]
@@ -461,6 +470,9 @@ def matrix_definitions() -> list[dict]:
                      "nullable": [1, OPEN], "hasdefault": True, "spelling": "null"}),
           _complete({"name": "TagItems", "t": "TagItem", "tk": "sarr", "fields": inner("TagItem"), "tagged": [2, OPEN],
                      "tag": 1, "versions": [2, OPEN]}),
+          # nullable only in a bounded range of versions
+          _complete({"name": "SometimesNullItems", "t": "SnItem", "tk": "sarr", "fields": plain("SnItem"), "nullable": [1, 1]}),
+          _complete({"name": "SometimesNullName", "t": "string", "tk": "prim", "nullable": [0, 1]}),
           _complete({"name": "TagNulItems", "t": "TagNulItem", "tk": "sarr", "fields": inner("TagNulItem"),
                      "tagged": [2, OPEN], "tag": 2, "versions": [2, OPEN], "nullable": [2, OPEN]}),
           _complete({"name": "FirstShared", "t": "SharedThing", "tk": "csarr"}),
